@@ -48,6 +48,23 @@ CHECKS['C05'] = dict(
          "Decode of the very same bytes. FlipDetected/TruncExtendErr/BadRefErr are model-checked on the format.",
     note="TonBoc transcription; corruption classes limited to those the property names; CRC re-sealing uses the library crc32c (validated by C18)",
     tech="TLC-generated encodings (spec -> code) + TLC validation of parser outcomes against the strict TLA+ decoder", ref="8/C05")
+BAGNOTE = "TonBag.Do is my reading of the TL-B encodings and of capacity rules; TLC; the pool/projection driver (bagkit.py); Python exceptions of any class count as errors"
+CHECKS['C06'] = dict(
+    text="TonBag is an explicit state machine of the Builder/Slice/Cell pool with one action per public call; TLC model-checks it with scaled limits "
+         "(RoundTrip, PeekEqLoad, Capacity, CellsImmutable, FrameOne, encoding lemmas over all small integers). Recorded library behaviours (typed "
+         "stores with boundary values per width/byte class, all address forms, snake strings, then peek+load of each item) are validated step by "
+         "step by TLC: bits written, values read back, nothing left.",
+    note=BAGNOTE, tech="TLA+ Builder/Slice state machine model-checked by TLC + trace validation of recorded call sequences (full state after every call)", ref="8/C06")
+CHECKS['C07'] = dict(
+    text="Same machine; the guard of every action (value fits its width, bits/refs fit the remaining capacity, enough bits/refs remain, depth <= 1023) "
+         "is the specification of ok/err. Recorded stores at every fill level x ref level, out-of-range neighbours of every bound, over-reads on "
+         "built/BoC-parsed/plain-bitarray cells, composite stores and depth 1022..1024 are validated by TLC: refused iff it does not fit.",
+    note=BAGNOTE, tech="TLA+ state machine guards decide ok/err; TLC trace validation of recorded boundary behaviours; TLC model check of Capacity", ref="8/C07")
+CHECKS['C08'] = dict(
+    text="Same machine; every action owns at most one object (FrameOne) and never a cell (CellsImmutable), model-checked by TLC. Random interleavings "
+         "of 30-60 calls over a pool of derived objects are recorded with the full projection (bits, refs, hash, sha256 of to_boc) of every live "
+         "object after every call; TLC checks the frame condition, immutability, argument preservation and history-independence of Cell.order.",
+    note=BAGNOTE, tech="TLA+ frame conditions as action properties (TLC) + trace validation with full-state logging after every call", ref="8/C08")
 NOT_APPLICABLE = []
 def main():
     checks = []
